@@ -166,6 +166,7 @@ class FormulaMaterializer(metaclass=FormulaMaterializerMeta):
 
         self.factor_cache: dict[str, EvaluatedFactor] = {}
         self.encoded_cache: dict[Union[str, tuple[str, bool]], Any] = {}
+        self.encoder_state_cache: dict[str, tuple[Factor.Kind, dict[str, Any]]] = {}
 
     def _init(self) -> None:
         pass  # pragma: no cover
@@ -782,6 +783,7 @@ class FormulaMaterializer(metaclass=FormulaMaterializerMeta):
                             factor
                         )  # pragma: no cover; it is not currently possible to reach this sentinel
                 spec.encoder_state[factor.expr] = (factor.metadata.kind, encoder_state)
+                self.encoder_state_cache[factor.expr] = spec.encoder_state[factor.expr]
 
                 # Only encode once for encodings where we can just drop a field
                 # later on below.
@@ -791,6 +793,15 @@ class FormulaMaterializer(metaclass=FormulaMaterializerMeta):
                     else (factor.expr, reduced_rank)
                 )
                 self.encoded_cache[cache_key] = encoded
+
+            if (
+                factor.expr not in spec.encoder_state
+                and factor.expr in self.encoder_state_cache
+            ):
+                # The encoding was served from the cache (generated for another
+                # part of a structured formula); this spec must record the
+                # encoder state too, or it cannot regenerate its own part.
+                spec.encoder_state[factor.expr] = self.encoder_state_cache[factor.expr]
         else:
             encoded = as_columns(
                 factor.values
